@@ -6,12 +6,14 @@ maxper=int(sys.argv[2]) if len(sys.argv)>2 else 1
 for p in sorted(glob.glob('/verif/evidence/replays/%s-*.json'%prop)):
     r=json.load(open(p))
     w=r['result'].get('witness') or {}
-    key=(r['case'].get('stratum'), w.get('stage'))
+    key=(r['case'].get('stratum'), w.get('stage'), w.get('oracle'))
     c[key]+=1
     if seen[key]>=maxper: continue
     seen[key]+=1
     print(p, key)
-    print(w.get('source'))
-    print(w.get('inputs'), w.get('chests'), json.dumps(w.get('mismatches',[])[:2])[:700], str(w.get('detail'))[:400])
+    print(w.get('source') or w.get('source_a'))
+    if w.get('source_b') and w.get('source_b')!=w.get('source_a'): print('--- B:\n'+w['source_b'])
+    print(w.get('inputs'), w.get('chests'), json.dumps(w.get('mismatches') or w.get('differences') or w.get('problems') or [])[:900], str(w.get('detail'))[:300])
+    if w.get('history'): print('history', str(w['history'])[:300], 'step', w.get('step'))
     print('---')
 for k,v in sorted(c.items(), key=str): print(k,v)
